@@ -14,28 +14,97 @@
    (Spec.FrameSpec.frame_decode, all checksums verified, XXH32 from the xxHash specification)
    decodes to exactly the concatenated input, with nothing left over.
 
-   Not proved here (C03_lossless_full_statement): that LZ4F_decompress returns the same bytes under
-   every chunking of its input and output.  The decoder state machine is modelled by properties
-   C08/C19; in this check that half is the direct oracle (real LZ4F_decompress under many
-   chunkings) and the composition theorem is left to the decoder's refinement to frame_decode. *)
+   C03_lossless composes this with the decoder model of property C08 (Model.FrameD: all 15 stages of
+   LZ4F_decompress; Proofs/FrameDChunk.v: on input accepted by frame_decode the staged decoder never errs,
+   ends, and returns the document's verdict whatever the chunking): for EVERY such session and EVERY way of
+   feeding the produced frame to LZ4F_decompress_usingDict's model - any decompression context at the start
+   of a frame, any options (stableDst, skipChecksums), any piece sizes >= 1, any per-call capacities >= 1,
+   what a call does not consume being offered again - no call fails and, within |frame| + |input| + 1 calls,
+   the decoder returns 0 having produced exactly the input and consumed exactly the frame.  Two hypotheses are
+   added by the composition: the input is a string of bytes (values 0..255) and the block compressor writes
+   bytes (blk_bytes); they make the produced frame a string of bytes, which the decoder theorems require
+   (C03_frame_is_bytes).  Both models are tied to the C code by their own per-call correspondence (c03.py,
+   c08.py); the real LZ4F_decompress under sampled chunkings remains a direct oracle of this check.
+
+   About the earlier Definition C03_lossless_full_statement (it took an abstract driver [decompress_loop dict
+   pieces caps] fed a list of pieces and asked for "exists caps_used"): it is replaced by the concrete statement
+   below, instantiated with FrameDChunk.drive_usingDict.  Differences: the chunking is given by piece SIZES and
+   the driver re-offers the bytes a call did not consume (the documented protocol; a fixed list of pieces would
+   silently drop them); the number of calls is explicit (|F|+|X|+1 suffice; for any other number of calls the run
+   never errs and, if it ends, ends with the same verdict) instead of an existential over extra capacities. *)
 From Coq Require Import ZArith List Lia Bool.
 From LZ4V Require Import Gen.Consts Spec.BlockSpec Spec.XXH32 Spec.FrameSpec Model.FrameC Model.FrameAudit
-     Proofs.FrameCBytes Proofs.FrameCBlocks Proofs.FrameCProofs Proofs.FrameCTheorems Proofs.FrameCExamples.
+     Model.FrameD Proofs.FrameCBytes Proofs.FrameCBlocks Proofs.FrameCProofs Proofs.FrameCTheorems Proofs.FrameCExamples
+     Proofs.FrameRoundTrip Proofs.FrameCTotal.
+From LZ4V Require Proofs.FrameDProofs Proofs.FrameDChunk.
 Import ListNotations.
 Local Open Scope Z_scope.
 
-(* the full property: the theorem below, plus the decoder under any chunking.  [decompress_loop dict
-   pieces caps] stands for a driver loop around LZ4F_decompress_usingDict fed the input pieces with the
-   given output capacities; it returns (output, last return value, bytes consumed). *)
-Definition C03_lossless_full_statement
-  (decompress_loop : list byte -> list (list byte) -> list Z -> option (list byte * Z * Z)) : Prop :=
-  forall blk, blk_contract spec_decode blk ->
+(* the full property, over the compressor model and the decoder model *)
+Definition C03_lossless_full_statement : Prop :=
+  forall blk, blk_contract spec_decode blk -> blk_bytes blk ->
   forall c0 po dk ms F X,
   prefs_opt_ok po -> uncompressed_only_if_independent po ms -> len X < U64 ->
+  bytes_ok X = true ->
   session blk c0 po dk ms = Some (F, X) ->
-  frame_decode spec_decode false (dict_of dk) F = Some (X, []) /\
-  forall pieces caps, concat pieces = F -> Forall (fun c => 0 < c) caps ->
-    exists caps_used, decompress_loop (dict_of dk) pieces (caps_used ++ caps) = Some (X, 0, len F).
+  forall o s ns caps,
+  dctx_at_frame_start s ->
+  (forall k, Forall (fun c => 0 <= c) caps ->
+     FrameDChunk.drive_usingDict spec_decode (dict_of dk) o k s F ns caps [] 0 <> FrameDChunk.VError /\
+     (FrameDChunk.drive_usingDict spec_decode (dict_of dk) o k s F ns caps [] 0 <> FrameDChunk.VMore ->
+      FrameDChunk.drive_usingDict spec_decode (dict_of dk) o k s F ns caps [] 0 = FrameDChunk.VComplete X (zlen F))) /\
+  (o_dstnull o = false -> Forall (fun n => 1 <= n) ns -> Forall (fun c => 1 <= c) caps ->
+   let K := Z.to_nat (zlen F + zlen X + 1) in
+   (K <= length ns)%nat -> (K <= length caps)%nat ->
+   FrameDChunk.drive_usingDict spec_decode (dict_of dk) o K s F ns caps [] 0 = FrameDChunk.VComplete X (zlen F)).
+
+(* 0. compressor model then decoder model, any chunking *)
+Theorem C03_lossless : C03_lossless_full_statement.
+Proof. exact c03_lossless. Qed.
+Print Assumptions C03_lossless.
+
+(* plain LZ4F_decompress (no dictionary), e.g. from a calloc'ed or reset context *)
+Theorem C03_lossless_nodict :
+  forall blk, blk_contract spec_decode blk -> blk_bytes blk ->
+  forall c0 po ms F X,
+  prefs_opt_ok po -> uncompressed_only_if_independent po ms -> len X < U64 ->
+  bytes_ok X = true ->
+  session blk c0 po NoDict ms = Some (F, X) ->
+  forall o s ns caps,
+  dctx_at_frame_start s -> d_hist s = [] ->
+  o_dstnull o = false -> Forall (fun n => 1 <= n) ns -> Forall (fun c => 1 <= c) caps ->
+  let K := Z.to_nat (zlen F + zlen X + 1) in
+  (K <= length ns)%nat -> (K <= length caps)%nat ->
+  FrameDChunk.drive spec_decode o K s F ns caps [] 0 = FrameDChunk.VComplete X (zlen F).
+Proof. exact c03_lossless_nodict. Qed.
+Print Assumptions C03_lossless_nodict.
+
+(* LZ4F_compressFrame(_usingCDict), then the decoder under any chunking *)
+Theorem C03_compressFrame_lossless :
+  forall blk, blk_contract spec_decode blk -> blk_bytes blk ->
+  forall c src cd po F c',
+  prefs_opt_ok po -> len src < U64 -> bytes_ok src = true ->
+  compressFrame_usingCDict blk c src (match cd with Some d => Some (createCDict d) | None => None end) po = (Out F, c') ->
+  forall o s ns caps,
+  dctx_at_frame_start s ->
+  o_dstnull o = false -> Forall (fun n => 1 <= n) ns -> Forall (fun c => 1 <= c) caps ->
+  let K := Z.to_nat (zlen F + zlen src + 1) in
+  (K <= length ns)%nat -> (K <= length caps)%nat ->
+  FrameDChunk.drive_usingDict spec_decode (match cd with Some d => d | None => [] end) o K s F ns caps [] 0
+  = FrameDChunk.VComplete src (zlen F).
+Proof. exact c03_compressFrame_lossless. Qed.
+Print Assumptions C03_compressFrame_lossless.
+
+(* the produced frame is a string of bytes (what lets the decoder theorems apply) *)
+Theorem C03_frame_is_bytes :
+  forall blk, blk_contract spec_decode blk -> blk_bytes blk ->
+  forall c0 po dk ms F X,
+  prefs_opt_ok po -> uncompressed_only_if_independent po ms -> len X < U64 ->
+  bytes_ok X = true ->
+  session blk c0 po dk ms = Some (F, X) ->
+  bytes_ok F = true.
+Proof. exact session_bytes. Qed.
+Print Assumptions C03_frame_is_bytes.
 
 (* 1. streaming API: every successful Begin .. End session is a frame that decodes to the input *)
 Theorem C03_roundtrip :
@@ -46,16 +115,6 @@ Theorem C03_roundtrip :
   frame_decode spec_decode false (dict_of dk) F = Some (X, []).
 Proof. exact c03_roundtrip. Qed.
 Print Assumptions C03_roundtrip.
-
-(* the same statement under the name that marks it as the proved part of the full property *)
-Theorem C03_lossless_partial :
-  forall blk, blk_contract spec_decode blk ->
-  forall c0 po dk ms F X,
-  prefs_opt_ok po -> uncompressed_only_if_independent po ms -> len X < U64 ->
-  session blk c0 po dk ms = Some (F, X) ->
-  frame_decode spec_decode false (dict_of dk) F = Some (X, []).
-Proof. exact c03_roundtrip. Qed.
-Print Assumptions C03_lossless_partial.
 
 (* 2. LZ4F_compressFrame_usingCDict / LZ4F_compressFrame (cd = None, fresh context) *)
 Theorem C03_compressFrame_roundtrip :
@@ -79,6 +138,20 @@ Theorem C03_update_fuel_suffices :
   forall blk c src bc, 0 < c_maxBlock c -> fst (compressUpdateImpl blk c src bc) <> OutOfFuel.
 Proof. exact update_never_out_of_fuel. Qed.
 Print Assumptions C03_update_fuel_suffices.
+
+(* 5. "no call reports an error" is not a restriction: every legal session (preferences in range, raw dictionary
+      <= INT_MAX bytes, uncompressedUpdate only with independent blocks, declared content size absent or exact)
+      runs to the end in the model, and its frame decodes to the input.  Capacities are property C10's. *)
+Theorem C03_legal_session :
+  forall blk, blk_contract spec_decode blk ->
+  forall c0 po dk ms,
+  prefs_opt_ok po -> dict_fits dk -> uncompressed_only_if_independent po ms ->
+  len (mop_inputs ms) < U64 ->
+  (p_contentSize (eff_prefs po) = 0 \/ p_contentSize (eff_prefs po) = len (mop_inputs ms)) ->
+  exists F, session blk c0 po dk ms = Some (F, mop_inputs ms) /\
+            frame_decode spec_decode false (dict_of dk) F = Some (mop_inputs ms, []).
+Proof. exact c03_legal_session. Qed.
+Print Assumptions C03_legal_session.
 
 (* ---- the hypotheses are satisfiable, non-vacuously ---- *)
 (* a block compressor that really compresses (40 x 'a' -> 11 bytes) and meets the contract *)
@@ -114,3 +187,23 @@ Example C03_ex_compressFrame :
   | _ => False
   end.
 Proof. vm_compute. reflexivity. Qed.
+
+(* the composed theorem's extra hypotheses on the example, and the decoder model actually run on the
+   example frame: 1-byte pieces with 1-byte capacities from a calloc'ed context, and one call with room *)
+Example C03_ex_blk_bytes : blk_bytes ex_blk /\ bytes_ok (mop_inputs ex_ops) = true /\ dctx_at_frame_start dctx_init.
+Proof.
+  split; [|split; [vm_compute; reflexivity|]].
+  - intros n h x c H. unfold ex_blk in H. destruct (list_eqb x ex_content); [|discriminate].
+    inversion H. vm_compute. reflexivity.
+  - split; [exact FrameDProofs.wf_init|]. repeat split; reflexivity.
+Qed.
+Example C03_ex_decoder_run :
+  match session ex_blk cctx_zero (Some ex_prefs) NoDict ex_ops with
+  | Some (F, X) =>
+      FrameDChunk.drive spec_decode (mkO false false false) 177 dctx_init F (repeat 1 177) (repeat 1 177) [] 0
+        = FrameDChunk.VComplete X 93
+      /\ FrameDChunk.drive spec_decode (mkO false false false) 1 dctx_init F [93] [100] [] 0 = FrameDChunk.VComplete X 93
+  | None => False
+  end.
+Proof. vm_compute. split; reflexivity. Qed.
+
